@@ -1752,13 +1752,21 @@ impl<'input, T: Input> Scanner<'input, T> {
             // If we had reached an eof but the last character wasn't an end-of-line, check if the
             // last line was indented at least as the rest of the scalar, then we need to consider
             // there is a newline.
-            if self.input.next_is_z() && self.mark.col >= indent.max(1) {
+            if leading_break.is_empty()
+                && self.input.next_is_z()
+                && self.mark.col >= indent.max(1)
+            {
                 string.push('\n');
             }
         }
 
         if chomping == Chomping::Keep {
             string.push_str(&trailing_breaks);
+            // A last line made only of spaces that the end of the stream terminates is one more
+            // empty line.
+            if !leading_break.is_empty() && self.input.next_is_z() && self.mark.col > 0 {
+                string.push('\n');
+            }
         }
 
         Ok(Token(
